@@ -3,10 +3,11 @@
     Z / positive / Q stay the extracted inductive types (amplitudes are small dyadics). *)
 Require Import QArith.
 From Coq Require Import ExtrOcamlBasic ExtrOcamlNatInt.
-From PV Require Import Outcome Lattice IndexHam PolyQ PresetsSpec PresetsExec.
+From PV Require Import Outcome Lattice IndexHam PolyQ PresetsSpec PresetsConfig PresetsExec.
 
 Extraction "C04_model.ml"
   q_spec_table q_model_poly q_model_results q_splus_table q_sminus_table q_poly_table
   c_spec_table c_model_poly c_model_results c_splus_table c_sminus_table c_poly_table
+  cfg_fixed cfg_mag_half cfg_doc_half
   as_is repaired Qred qadd qmul qsub qopp qzero q_eqb
   c0 c1 c_of_q cadd csub cmul copp cconj czero ceqb.
